@@ -19,6 +19,7 @@ sys.path.insert(0, HERE)
 CHECKS = {
     'C01': ('checks.c01', 'C01'),
     'C02': ('checks.tokedit', 'C02'),
+    'C04': ('checks.c04', 'C04'),
     'C07': ('checks.store_check', 'C07'),
     'C09': ('checks.c09', 'C09'),
     'C08': ('checks.c08', 'C08'),
@@ -27,6 +28,7 @@ CHECKS = {
     'C06': ('checks.composite', 'C06'),
     'C05': ('checks.composite', 'C05'),
     'C13': ('checks.numexpr', 'C13'),
+    'C14': ('checks.c14', 'C14'),
     'C16': ('checks.c16', 'C16'),
     'C19': ('checks.c19', 'C19'),
 }
